@@ -95,7 +95,10 @@ impl Service for MemService {
     async fn put(&mut self, name: &str, value: &[u8]) -> Result<()> {
         let f = self
             .gate
-            .request(self.client, json!({"op":"put","name":name,"len":value.len()}))
+            .request(
+                self.client,
+                json!({"op":"put","name":name,"len":value.len()}),
+            )
             .await;
         if f == Fault::FailBefore {
             self.gate.reply(self.client, json!({"res":"fail-before"}));
